@@ -1,6 +1,7 @@
 package main
 
 import (
+	"go/token"
 	"go/types"
 	"fmt"
 	"strings"
@@ -346,6 +347,116 @@ func runC04(r *Run) {
 			"the grant check can succeed without having compared the requested amount with the grant's limit", P.witness(w)...)
 	}
 	r.Floor("R9", "grant checks returning a StakeAuthorization", nLim, 1)
+
+	// ---------- R10 ----------
+	r.Rule("R10", "FLOW.grant-type-matches-message: in a staking spend handler every grant check and grant update is keyed by the type URL of the handler's own native message — the URL argument is a load of the package variable initialised with sdk.MsgTypeURL(&T{}) where T is the message type the handler's decoder returns; an approval given for one message type (delegate) never authorises another (cancel unbonding, undelegate, redelegate)")
+	{
+		// package variables initialised with MsgTypeURL(&T{})
+		urlVar := map[*ssa.Global]string{}
+		for _, fn := range P.Funcs {
+			if !strings.Contains(fnPkgPath(fn), "/precompiles/") || fn.Name() != "init" {
+				continue
+			}
+			eachInstr(fn, func(in ssa.Instruction) {
+				st, ok := in.(*ssa.Store)
+				if !ok {
+					return
+				}
+				g, ok := st.Addr.(*ssa.Global)
+				if !ok {
+					return
+				}
+				c, ok := st.Val.(*ssa.Call)
+				if !ok || callInfo(c).Name != "MsgTypeURL" || len(c.Call.Args) != 1 {
+					return
+				}
+				if mi, ok := c.Call.Args[0].(*ssa.MakeInterface); ok {
+					urlVar[g] = namedName(deref(mi.X.Type()))
+				}
+			})
+		}
+		nG := 0
+		for _, m := range models {
+			if m.Rel != "precompiles/staking" {
+				continue
+			}
+			for _, h := range m.Handlers {
+				if h.Fn == nil || !h.IsTx {
+					continue
+				}
+				// message type from the decoder
+				msgType := ""
+				eachInstr(h.Fn, func(in ssa.Instruction) {
+					c, ok := in.(*ssa.Call)
+					if !ok || c.Call.StaticCallee() == nil || !strings.Contains(fnPkgPath(c.Call.StaticCallee()), "/precompiles/") {
+						return
+					}
+					res := c.Call.StaticCallee().Signature.Results()
+					if res.Len() >= 2 && strings.HasPrefix(namedName(deref(res.At(0).Type())), "Msg") && msgType == "" {
+						msgType = namedName(deref(res.At(0).Type()))
+					}
+				})
+				eachCall(h.Fn, func(ci CallInfo) {
+					if ci.Name != "CheckAuthzAndAllowanceForGranter" && ci.Name != "UpdateStakingAuthorization" {
+						return
+					}
+					var urlArg ssa.Value
+					for _, a := range ci.Instr.Common().Args {
+						if bt, ok := a.Type().Underlying().(*types.Basic); ok && bt.Kind() == types.String {
+							urlArg = a
+						}
+					}
+					if urlArg == nil || msgType == "" {
+						return
+					}
+					nG++
+					okURL := false
+					if u, ok := stripValue(urlArg).(*ssa.UnOp); ok && u.Op == token.MUL {
+						if g, ok := u.X.(*ssa.Global); ok && urlVar[g] == msgType {
+							okURL = true
+						}
+					}
+					r.Check(okURL, "R10", fmt.Sprintf("%s#%s/type-url", fnID(h.Fn), ci.Name), P.Pos(instrPos(ci.Instr)), "keyed by the type URL of "+msgType,
+						"a grant check/update in the handler of "+msgType+" is keyed by something other than the type URL of "+msgType+": an approval given for a different message type authorises (or is consumed by) this operation")
+				})
+			}
+		}
+		r.Floor("R10", "grant checks/updates keyed by a message type URL in staking handlers", nG, 8)
+	}
+
+	// ---------- R11 ----------
+	r.Rule("R11", "FLOW.grant-update-keeps-expiration: a precompile function that re-saves a grant after it was used or adjusted (it receives the grant's expiration as a parameter or reads it with GetAuthorization) passes that same expiration to SaveGrant — nil means 'never expires', so a re-saved grant with a dropped expiration outlives the approval the signer gave")
+	{
+		nS := 0
+		for _, fn := range P.Funcs {
+			if !strings.Contains(fnPkgPath(fn), "/precompiles/") || isTestSupport(P, fn) || fn.Synthetic != "" {
+				continue
+			}
+			var expParam *ssa.Parameter
+			for _, p := range fn.Params {
+				if p.Name() == "expiration" {
+					expParam = p
+				}
+			}
+			readsGrant := len(findCalls(fn, anyMethod("GetAuthorization"))) > 0
+			if expParam == nil && !readsGrant {
+				continue
+			}
+			eachCall(fn, func(ci CallInfo) {
+				if ci.Name != "SaveGrant" {
+					return
+				}
+				args := callArgs(ci.Instr)
+				exp := args[len(args)-1]
+				nS++
+				sl := backSlice(exp)
+				okExp := (expParam != nil && sl.Has(expParam)) || sl.HasCall(func(g CallInfo) bool { return g.Name == "GetAuthorization" })
+				r.Check(okExp && !isNilConst(stripValue(exp)), "R11", fmt.Sprintf("%s#SaveGrant-expiration", fnID(fn)), P.Pos(instrPos(ci.Instr)), "re-saved with the grant's own expiration",
+					"a used/adjusted grant is re-saved with an expiration that is not the grant's own (nil = never expires): a time-limited approval becomes permanent after its first partial use")
+			})
+		}
+		r.Floor("R11", "SaveGrant calls that re-save an existing grant", nS, 4)
+	}
 
 	// ---------- R8 ----------
 	r.Rule("R8", "OWN/SHAPE.limit-stays-limited: precompile code changes the limit of an existing staking grant only through `MaxTokens.Amount = MaxTokens.Amount.Sub(coin.Amount)` (decreaseAllowance) and `.Add(coin.Amount)` (increaseAllowance); it never stores the MaxTokens pointer itself — a nil MaxTokens means an unlimited grant, so replacing the pointer can turn a used-up limit into no limit")
